@@ -25,6 +25,7 @@ mod model;
 mod pathgen;
 mod report;
 mod rng;
+mod subtree;
 mod sweep;
 
 use report::Report;
@@ -53,6 +54,7 @@ fn main() {
         "C12" => {
             report = Report::new("C12", "pairs (subtree, path) of valid apaths: exhaustive to depth 2, sampled extensions (by component and textual) to depth 4; non-trivial = the subtree is a textual prefix of the path");
             c12::run_pure(&tier, seed, &mut report);
+            subtree::run_c12(&tier, seed, &mut report);
         }
         "C01" => {
             report = Report::new("C01", "generated source trees (names around '/', multi-byte, sizes around the small-file cap and block size, all modes, pre/post-epoch mtimes, owners) x option triples; each backed up into a fresh archive and restored; non-trivial = more than the root entry; distinct by canonical case text");
@@ -98,6 +100,7 @@ fn main() {
         "C15" => {
             report = Report::new("C15", "(pattern set, apath) pairs: 1-3 exclusion patterns built from anchored/unanchored names, *, ?, ** in every position, classes, escapes, non-ASCII names, plus malformed patterns; apaths to depth 4 over a component alphabet; and (single glob, arbitrary string) pairs; non-trivial = the real code answers true; distinct by canonical text of the case");
             c15::run(&tier, seed, &mut report);
+            subtree::run_c15_trees(&tier, seed, &mut report);
         }
         "C01B" => {
             report = Report::new("C01B", "source mtimes (ns) put through the real backup+restore (fixed list around the epoch and the second boundary, plus random times inside the file system's range), hand-made (mtime, mtime_nanos) pairs through IndexEntry::mtime(), and rewritten index pairs through restore; all are non-trivial; distinct by canonical text");
